@@ -229,6 +229,22 @@ class AppFailure(Exception):
     pass
 
 
+def make_failure(kind, where):
+    """The exception a scripted application raises at its failure point."""
+    msg = "scripted failure %s" % where
+    if kind == "oserror":
+        return OSError(5, msg)                       # EIO: an OSError that is not a socket condition
+    if kind == "filenotfound":
+        return FileNotFoundError(2, msg)
+    if kind == "permission":
+        return PermissionError(13, msg)
+    if kind == "timeout":
+        return TimeoutError(msg)
+    if kind == "valueerror":
+        return ValueError(msg)
+    return AppFailure(msg)
+
+
 class _Iter:
     """Iterable with optional close(), lazy start_response, failure points."""
 
@@ -251,12 +267,14 @@ class _Iter:
         fail = self.prog.spec.get("fail")
         if isinstance(fail, list) and fail[0] == "after_chunk" and self.i == fail[1]:
             self.prog.rec["failed_at"] = "after_chunk_%d" % self.i
-            raise AppFailure("scripted failure after chunk %d" % self.i)
+            raise make_failure(self.prog.spec.get("fail_exc"), "after chunk %d" % self.i)
         if self.i >= len(self.chunks):
             raise StopIteration
         c = self.chunks[self.i]
         self.i += 1
         self.prog.rec["produced"].append(c)
+        if self.i == 2 and self.prog.spec.get("read_when") == "after_first_chunk":
+            self.prog._read_input()         # the first chunk is on the wire by now: the body is read late
         return c
 
     def _close(self):
@@ -282,17 +300,23 @@ class AppProgram:
                           "start_calls": 0, "written": []}
         self.calls.append(rec)
         rd = spec.get("read_input", "all")
-        try:
-            if rd == "all":
-                rec["input"] = environ["wsgi.input"].read()
-            elif isinstance(rd, int):
-                rec["input"] = environ["wsgi.input"].read(rd)
-        except Exception as e:              # noqa: BLE001
-            rec["input_error"] = type(e).__name__
-            raise
+
+        def read_input():
+            try:
+                if rd == "all":
+                    rec["input"] = environ["wsgi.input"].read()
+                elif isinstance(rd, int):
+                    rec["input"] = environ["wsgi.input"].read(rd)
+            except Exception as e:              # noqa: BLE001
+                rec["input_error"] = type(e).__name__
+                raise
+        self._read_input = read_input
+        when = spec.get("read_when", "first")
+        if when == "first":
+            read_input()
         if spec.get("fail") == "before_start":
             rec["failed_at"] = "before_start"
-            raise AppFailure("scripted failure before start_response")
+            raise make_failure(spec.get("fail_exc"), "before start_response")
         chunks = self.body_chunks()
         headers = [(a, b) for a, b in spec.get("headers", [])]
         total = sum(len(c) for c in chunks)
@@ -321,13 +345,17 @@ class AppProgram:
         mode = spec.get("mode", "list")
         if mode in ("write", "write+iter"):
             w = start()
+            if spec.get("read_when") in ("after_start", "after_first_chunk") and not chunks:
+                read_input()
             if spec.get("fail") == "after_start":
                 rec["failed_at"] = "after_start"
-                raise AppFailure("scripted failure after start_response")
+                raise make_failure(spec.get("fail_exc"), "after start_response")
             k = len(chunks) if mode == "write" else len(chunks) // 2
-            for c in chunks[:k]:
+            for ci, c in enumerate(chunks[:k]):
                 w(c)
                 rec["produced"].append(c)
+                if ci == 0 and spec.get("read_when") in ("after_start", "after_first_chunk"):
+                    read_input()            # write() has put the head and the first chunk on the wire
             return _Iter(self, None, chunks[k:])
         if mode == "file":
             f = spec["file"]
@@ -344,16 +372,18 @@ class AppProgram:
             start()
             if spec.get("fail") == "after_start":
                 rec["failed_at"] = "after_start"
-                raise AppFailure("scripted failure after start_response")
+                raise make_failure(spec.get("fail_exc"), "after start_response")
             rec["produced"].append(data[f.get("offset", 0):])
             rec["fileobj"] = fobj
             return environ["wsgi.file_wrapper"](fobj)
         lazy = spec.get("lazy_start", False) and mode == "gen"
         if not lazy:
             start()
+            if spec.get("read_when") == "after_start":
+                read_input()
             if spec.get("fail") == "after_start":
                 rec["failed_at"] = "after_start"
-                raise AppFailure("scripted failure after start_response")
+                raise make_failure(spec.get("fail_exc"), "after start_response")
         if mode == "list" and not isinstance(spec.get("fail"), list):
             rec["produced"].extend(chunks)
             return list(chunks)
